@@ -6,6 +6,7 @@ import (
 	"fmt"
 	"go/token"
 	"go/types"
+	"sync"
 )
 
 type extModel func(e *Enc, fr *Frame, args []Val, st *State, reach string, pos token.Pos, rt types.Type) Val
@@ -31,6 +32,9 @@ var ghostFields = map[string]ghostField{
 	"rdata": {bigByteArr, ArrS(BV(8))},
 	"rlen":  {types.Typ[types.Int], bv64},
 	"rpos":  {types.Typ[types.Int], bv64},
+	"rz":    {types.Typ[types.Int], bv64},     // zero bytes immediately before rpos, as the standard's EBSP decoder counts them
+	"rpay":  {bigByteArr, ArrS(BV(8))},        // payload decoded by the standard's EBSP decoder from rdata[0:rpos)
+	"rplen": {types.Typ[types.Int], bv64},
 }
 
 var externals = map[string]extModel{}
@@ -107,6 +111,9 @@ func init() {
 			e.gset(st, "pay", w, ite(simple, ite(isEsc, pay, sto(pay, plen, b)), hv("pay", ArrS(BV(8)))))
 			e.gset(st, "plen", w, ite(simple, ite(isEsc, plen, bvadd(plen, c64(1))), hv("plen", bv64)))
 			e.gset(st, "wdata", w, ite(simple, sto(wdata, wlen, b), hv("wdata", ArrS(BV(8)))))
+			// fewer than 2^56 bytes are ever written to one writer
+			big56 := bvLit(bigPow2(56), 64)
+			e.assume(imp(reach, and(app("bvsle", c64(0), e.gget(st, "plen", w)), app("bvsle", e.gget(st, "plen", w), e.gget(st, "wlen", w)), app("bvsle", c64(0), e.gget(st, "wlen", w)), app("bvsle", e.gget(st, "wlen", w), big56))))
 			return Val{T: rt, L: []string{n, err.L[0], err.L[1]}}
 		})
 
@@ -158,7 +165,7 @@ func init() {
 
 	// encoding/binary.Read(r, order, data) error -- pointer to fixed-size unsigned integer
 	regExt("encoding/binary.Read", "binary.Read into *uintN: next N/8 bytes of the abstract reader big-endian, or error at end of data (nothing consumed on error for N==8)",
-		append(ghostKeys("rpos"), "cell:uint8", "cell:uint16", "cell:uint32", "cell:uint64", "$alloc"), func(e *Enc, fr *Frame, args []Val, st *State, reach string, pos token.Pos, rt types.Type) Val {
+		append(ghostKeys("rpos", "rz", "rpay", "rplen"), "cell:uint8", "cell:uint16", "cell:uint32", "cell:uint64", "$alloc"), func(e *Enc, fr *Frame, args []Val, st *State, reach string, pos token.Pos, rt types.Type) Val {
 			r := args[0].L[1]
 			err := e.freshErr(st, reach, errorType())
 			data := args[2]
@@ -197,6 +204,26 @@ func init() {
 			old := e.load(st, tgt)
 			e.store(st, tgt, Val{T: tgt.T, L: []string{ite(enough, val, old.L[0])}})
 			newPos := bvadd(rpos, c64(nb))
+			if nb == 1 {
+				// EBSP decoder monitors (ITU-T H.264 7.4.1): 03 after two zero bytes is dropped, everything else is payload
+				rz := e.gget(st, "rz", r)
+				rpay := e.gget(st, "rpay", r)
+				rplen := e.gget(st, "rplen", r)
+				b := e.define("rb", BV(8), sel(rdata, rpos))
+				isEsc := and(eq(rz, c64(2)), eq(b, bvInt(3, 8)))
+				e.declDecoderFns()
+				// the monitors are functions of the consumed prefix: rz == RZ(rdata, rpos) etc. (definition of the ghost state)
+				e.assume(imp(reach, and(eq(rz, app("RZ", rdata, rpos)), eq(rplen, app("RPLEN", rdata, rpos)), eq(rpay, app("RPAY", rdata, rpos)))))
+				e.gset(st, "rz", r, ite(enough, ite(isEsc, c64(0), ite(eq(b, bvInt(0, 8)), bvadd(rz, c64(1)), c64(0))), rz))
+				e.gset(st, "rpay", r, ite(and(enough, not(isEsc)), sto(rpay, rplen, b), rpay))
+				e.gset(st, "rplen", r, ite(and(enough, not(isEsc)), bvadd(rplen, c64(1)), rplen))
+				np := ite(enough, newPos, rpos)
+				e.assume(imp(reach, and(eq(e.gget(st, "rz", r), app("RZ", rdata, np)), eq(e.gget(st, "rplen", r), app("RPLEN", rdata, np)), eq(e.gget(st, "rpay", r), app("RPAY", rdata, np)))))
+			} else {
+				for _, f := range []string{"rz", "rpay", "rplen"} {
+					e.gset(st, f, r, e.fresh("gh_"+f, ghostFields[f].S))
+				}
+			}
 			if nb > 1 {
 				// io.ReadFull may consume a partial prefix before failing
 				part := e.fresh("rpart", bv64)
@@ -207,6 +234,31 @@ func init() {
 			}
 			return err
 		})
+
+	// (io.ReadSeeker).Seek / (io.Seeker).Seek on the abstract reader
+	seek := func(e *Enc, fr *Frame, args []Val, st *State, reach string, pos token.Pos, rt types.Type) Val {
+		r := args[0].L[1]
+		off, whence := args[1].L[0], args[2].L[0]
+		err := e.freshErr(st, reach, errorType())
+		rlen := e.gget(st, "rlen", r)
+		rdata := e.gget(st, "rdata", r)
+		rpos := e.gget(st, "rpos", r)
+		e.declDecoderFns()
+		ok := e.define("seekok", BoolS(), and(eq(err.L[0], c64(0)), eq(whence, c64(0)), app("bvsle", c64(0), off), app("bvsle", off, rlen)))
+		// a seek that reports success with whence 0 and an offset inside the data positions the reader there; anything else leaves an unknown position
+		unk := e.fresh("seekpos", bv64)
+		e.assume(imp(reach, and(app("bvsle", c64(0), unk), app("bvsle", unk, rlen))))
+		np := e.define("seekto", bv64, ite(ok, off, ite(eq(err.L[0], c64(0)), unk, rpos)))
+		e.gset(st, "rpos", r, np)
+		e.gset(st, "rz", r, app("RZ", rdata, np))
+		e.gset(st, "rplen", r, app("RPLEN", rdata, np))
+		e.gset(st, "rpay", r, app("RPAY", rdata, np))
+		res := e.fresh("seekres", bv64)
+		e.assume(imp(and(reach, ok), eq(res, off)))
+		return Val{T: rt, L: []string{res, err.L[0], err.L[1]}}
+	}
+	regExt("io.ReadSeeker.Seek", "abstract seekable reader: Seek(off, io.SeekStart) with 0<=off<=len succeeds or fails; on success position and decoder monitors are those of prefix off", ghostKeys("rpos", "rz", "rpay", "rplen"), seek)
+	regExt("io.Seeker.Seek", "see io.ReadSeeker.Seek", ghostKeys("rpos", "rz", "rpay", "rplen"), seek)
 
 	for _, name := range []string{"fmt.Errorf", "errors.New"} {
 		nm := name
@@ -280,4 +332,24 @@ func init() {
 	be("PutUint16", 2, true)
 	be("PutUint32", 4, true)
 	be("PutUint64", 8, true)
+}
+
+var usedExternals = map[string]bool{}
+var usedExtMu sync.Mutex
+
+func noteExternal(k string) {
+	usedExtMu.Lock()
+	usedExternals[k] = true
+	usedExtMu.Unlock()
+}
+
+func (e *Enc) declDecoderFns() {
+	if e.declSeen["RZ"] {
+		return
+	}
+	e.declSeen["RZ"] = true
+	e.decl = append(e.decl,
+		"(declare-fun RZ ((Array (_ BitVec 64) (_ BitVec 8)) (_ BitVec 64)) (_ BitVec 64))",
+		"(declare-fun RPLEN ((Array (_ BitVec 64) (_ BitVec 8)) (_ BitVec 64)) (_ BitVec 64))",
+		"(declare-fun RPAY ((Array (_ BitVec 64) (_ BitVec 8)) (_ BitVec 64)) (Array (_ BitVec 64) (_ BitVec 8)))")
 }
